@@ -24,12 +24,21 @@ Requests (one per line; `F` is a fault: `-` none, `f<k>` fail the k-th commit of
 -/
 open Juno.Proto Juno.C05
 
+/-- The index maps of the closed form. They are kept in the driver state (not in a `let` next to
+the lookup closure: the compiler may move such a `let` under the closure's lambda, which
+recomputes the maps at every lookup). -/
+structure ChainIdx where
+  arr : Array Block
+  hashIdx : Std.HashMap Nat Nat
+  txIdx : Std.HashMap Nat (Nat × Nat)
+
 structure DState where
   W : Nat
   fx : Fixes
   node : Node
   base : List Block   -- reversed
   saved : Option Node := none
+  ix : Option ChainIdx := none
 
 def parseNat? (s : String) : Option Nat := s.toNat?
 
@@ -100,36 +109,49 @@ def winOfChain (W : Nat) (c : List Block) (lo : Nat) : Win :=
 /-- Closed form of `applyBatch Disk.empty (chainWrites c)` for a chain whose block hashes and
 transaction hashes are distinct: O(1) lookups instead of a closure per write (the base chain of a
 window-boundary history has 8190 blocks). `basecheck` compares the two on every key of a chain. -/
-def chainDiskFast (c : Array Block) : Disk :=
-  let hashIdx : Std.HashMap Nat Nat := c.foldl (fun m b => m.insert b.hash b.num) {}
-  let txIdx : Std.HashMap Nat (Nat × Nat) :=
-    c.foldl (fun m b => (b.txs.foldl (fun (acc : Std.HashMap Nat (Nat × Nat) × Nat) t => (acc.1.insert t (b.num, acc.2), acc.2 + 1)) (m, 0)).1) {}
-  fun k =>
-    match k with
-    | .height => if c.size = 0 then none else some (.num (c.size - 1))
-    | .header n => c[n]?.map .blk
-    | .numByHash h => hashIdx[h]?.map .num
-    | .txs n => c[n]?.map .blk
-    | .su n => c[n]?.map .blk
-    | .commit n => if n < c.size then some (.num n) else none
-    | .txLookup t => txIdx[t]?.map (fun x => .idx x.1 x.2)
-    | .state => c.back?.map (fun b => .num b.root)
-    | _ => none
+def chainLookup (c : Array Block) (hashIdx : Std.HashMap Nat Nat) (txIdx : Std.HashMap Nat (Nat × Nat))
+    (k : Key) : Option Val :=
+  match k with
+  | .height => if c.size = 0 then none else some (.num (c.size - 1))
+  | .header n => c[n]?.map .blk
+  | .numByHash h => hashIdx[h]?.map .num
+  | .txs n => c[n]?.map .blk
+  | .su n => c[n]?.map .blk
+  | .commit n => if n < c.size then some (.num n) else none
+  | .txLookup t => txIdx[t]?.map (fun x => .idx x.1 x.2)
+  | .state => c.back?.map (fun b => .num b.root)
+  | _ => none
+
+@[noinline] def mkChainIdx (c : List Block) : ChainIdx :=
+  let arr := c.toArray
+  { arr := arr
+    hashIdx := arr.foldl (fun m b => m.insert b.hash b.num) {}
+    txIdx := arr.foldl (fun m b => (b.txs.foldl (fun (acc : Std.HashMap Nat (Nat × Nat) × Nat) t => (acc.1.insert t (b.num, acc.2), acc.2 + 1)) (m, 0)).1) {} }
+
+def chainDiskFast (ix : ChainIdx) : Disk := chainLookup ix.arr ix.hashIdx ix.txIdx
 
 def chainKeys (W : Nat) (c : List Block) : List Key :=
   [.height, .state, .snap, .l1head]
   ++ (List.range (c.length + 2)).flatMap (fun n => [.header n, .txs n, .su n, .commit n, .win (n * W)])
   ++ c.flatMap (fun b => .numByHash b.hash :: b.txs.map .txLookup)
 
-def baseDisk (W : Nat) (c : List Block) (snap : Option Nat) : Disk :=
-  let d := if c.length ≤ 64 then applyBatch Disk.empty (chainWrites c) else chainDiskFast c.toArray
+structure Boxed where
+  disk : Disk
+
+/-- Windows of the complete windows and the snapshot on top of the chain image. Every choice is
+made on `Boxed` values, never on bare `Disk` functions (see `ChainIdx`). -/
+def overlay (W : Nat) (c : List Block) (snap : Option Nat) (d : Disk) : Boxed :=
   let full := c.length / W
-  let d := (List.range full).foldl (fun d i => applyW d (.put (.win (i * W)) (.win (winOfChain W c (i * W))))) d
-  match snap with
-  | none => d
-  | some s =>
-    let lo := wstart W s
-    applyW d (.put .snap (.snap (winOfChain W (c.take s) lo) s))
+  let ws : List Write := (List.range full).map (fun i => .put (.win (i * W)) (.win (winOfChain W c (i * W))))
+  let ws := match snap with
+    | none => ws
+    | some s => ws ++ [.put .snap (.snap (winOfChain W (c.take s) (wstart W s)) s)]
+  ⟨applyBatch d ws⟩
+
+def baseDisk (W : Nat) (c : List Block) (ix : ChainIdx) (snap : Option Nat) : Boxed :=
+  match decide (c.length ≤ 64) with
+  | true => overlay W c snap (applyBatch Disk.empty (chainWrites c))
+  | false => overlay W c snap (chainDiskFast ix)
 
 def doOp (s : DState) (op : Op) (ft : Fault) : DState × String :=
   let (n', o) := exec s.W s.fx s.node op ft
@@ -142,7 +164,7 @@ def step (s : DState) (line : String) : DState × String :=
     match parseNat? w, fxs.toList with
     | some w, [a, b, c] =>
       match flag a, flag b, flag c with
-      | some a, some b, some c => if w = 0 then (s, "bad-op") else (⟨w, ⟨a, b, c⟩, Node.init, [], none⟩, "ok")
+      | some a, some b, some c => if w = 0 then (s, "bad-op") else (⟨w, ⟨a, b, c⟩, Node.init, [], none, none⟩, "ok")
       | _, _, _ => (s, "bad-op")
     | _, _ => (s, "bad-op")
   | "blk" :: rest =>
@@ -153,12 +175,15 @@ def step (s : DState) (line : String) : DState × String :=
     let c := s.base.reverse
     let snap : Option (Option Nat) := if sn == "-" then some none else (parseNat? sn).map some
     match snap with
-    | some sp => ({ s with node := ⟨baseDisk s.W c sp, .lazy⟩, base := [] }, "ok")
+    | some sp =>
+      let ix := mkChainIdx c
+      let bd := baseDisk s.W c ix sp
+      ({ s with node := ⟨bd.disk, .lazy⟩, base := [], ix := some ix }, "ok")
     | none => (s, "bad-op")
   | ["basecheck"] =>
     let c := s.base.reverse
     let d1 := applyBatch Disk.empty (chainWrites c)
-    let d2 := chainDiskFast c.toArray
+    let d2 := chainDiskFast (mkChainIdx c)
     (s, if (chainKeys s.W c).all (fun k => d1 k == d2 k) then "same" else "differ")
   | "store" :: rest =>
     match rest.getLast?, parseBlock? rest.dropLast with
@@ -213,4 +238,4 @@ def step (s : DState) (line : String) : DState × String :=
     | none => (s, "bad-op")
   | _ => (s, "bad-op")
 
-def main : IO Unit := loop step ⟨8192, Fixes.none, Node.init, [], none⟩
+def main : IO Unit := loop step ⟨8192, Fixes.none, Node.init, [], none, none⟩
